@@ -89,6 +89,7 @@ class GenCfg:
     corr_base: int = 100             # first correlation id of rank 0
     corr_stride: int = 100           # distance between the id ranges of consecutive ranks (0: every rank uses the same ids)
     p_unlisted_launch: float = 0.0   # a launch goes through a runtime call that is not in HTA's launch-name list
+    p_overhang: float = 0.0          # an operator ends 1-2 us BEFORE its last child (timer glitch: not properly nested any more)
     p_nested_annotation: float = 0.0 # a child slot of an operator becomes a user annotation that wraps further operators
 
 
@@ -275,6 +276,8 @@ class _Sim:
             t += rng.choice((0, 0, 1)) if rng.random() < 0.7 else self.adv()
         t += self.adv() if n_children == 0 or rng.random() < 0.5 else 0
         e["dur"] = t - start
+        if n_children and cfg.p_overhang and rng.random() < cfg.p_overhang and e["dur"] > 2:
+            e["dur"] -= rng.choice((1, 2))
         return t
 
     def leaf(self, tid: int, t: int) -> int:
